@@ -609,6 +609,10 @@ def run_property(pid, tier, seed):
         if r is None or 'harness_panic' in r:
             continue
         v = r.get('verdicts', {})
+        # the class of K1 is defined on the MODEL (Dfa.no_merge, extracted): the modelled widening branch is taken
+        mm = model.get(c['id'])
+        if mm is not None and 'no_merge' in mm and isinstance(v, dict):
+            v['k1_merge'] = (mm['no_merge'] == '0')
         if isinstance(v.get('lang'), dict) and 'undecided' in v['lang']:
             undecided += 1
         if v.get('engine_inconsistencies'):
